@@ -298,7 +298,11 @@ func main() {
 			conn := turbotunnel.NewQueuePacketConn(vaddr(0), time.Hour)
 			return strconv.Itoa(cap(conn.OutgoingQueue(vaddr(1))))
 		case "redial":
-			return runRedial(args[1:])
+			return runRedial(args[1:], false)
+		case "redials":
+			return runRedial(args[1:], true)
+		case "overlap":
+			return runOverlap(args[1:])
 		case "leak":
 			return runLeak(args[1:])
 		case "sweep":
